@@ -860,12 +860,18 @@ func (w *World) writeOp(t *simcore.Task, wt *WTxn) bool {
 		// a run of neighbouring keys of the universe: drives radix nodes across their size thresholds
 		n := 4 + c.Choose(36)
 		start := c.Choose(len(tc.IDs))
-		del := c.Choose(3) == 0
+		mode := c.Choose(4)
+		del := mode == 0
+		// mode 3 is mixed: present keys are deleted and absent ones inserted, so that one transaction
+		// removes a key and then writes next to or underneath it
 		done := 0
 		for i := 0; i < n; i++ {
 			id := tc.IDs[(start+i)%len(tc.IDs)]
 			old, had := st.Objs[id]
 			before := st.Rev
+			if mode == 3 {
+				del = had
+			}
 			if del {
 				if !had {
 					continue
@@ -916,7 +922,10 @@ func (w *World) writeOp(t *simcore.Task, wt *WTxn) bool {
 			}
 			done++
 		}
-		w.S.Logf("T%d burst on %s: %d %s starting at key #%d", wt.id, tc.M.Name, done, map[bool]string{true: "deletes", false: "inserts"}[del], start)
+		w.S.Logf("T%d burst on %s: %d %s starting at key #%d", wt.id, tc.M.Name, done, [...]string{"deletes", "inserts", "inserts", "deletes and inserts"}[mode], start)
+		if mode == 3 {
+			w.probe("burst-mixed")
+		}
 		w.probe("burst")
 		if done > 0 {
 			w.progress++
